@@ -398,18 +398,18 @@ theorem evolves_classIter (env : Env) (c : Class) {S : List Slot} {b : BState} (
   rw [classIter_slots]; exact evolves_perm_markWant h _
 
 theorem evolves_runClasses (env : Env) (sorter : Class → List Slot → List Slot) :
-    ∀ (cs : List Class) (b : BState), RunOK env sorter cs b → Evolves b.slots (runClasses env sorter cs b).slots := by
+    ∀ (cs : List Class) (b : BState), RunPerm env sorter cs b → Evolves b.slots (runClasses env sorter cs b).slots := by
   intro cs
   induction cs with
   | nil => intro b _; exact Evolves.refl _
   | cons c cs ih =>
     intro b hok
     unfold runClasses
-    unfold RunOK at hok
+    unfold RunPerm at hok
     by_cases hd : env.desired c = 0
     · simp only [hd, if_true] at hok ⊢; exact ih b hok
     · simp only [hd, if_false] at hok ⊢
-      exact (evolves_classIter env c hok.1.1).trans (ih _ hok.2)
+      exact (evolves_classIter env c hok.1).trans (ih _ hok.2)
 
 theorem evolves_finalWant (b : BState) : Evolves b.slots (finalWant b) := by
   unfold finalWant
@@ -538,7 +538,7 @@ theorem classIter_guar (env : Env) (c : Class) (S : List Slot) (b : BState) (hid
 
 /-- every class of the loop with desired > 0 carries its guarantee to the end of the loop -/
 theorem runClasses_guar (env : Env) (sorter : Class → List Slot → List Slot) (c : Class) :
-    ∀ (cs : List Class) (b : BState), RunOK env sorter cs b → IdsDistinct b.slots →
+    ∀ (cs : List Class) (b : BState), RunPerm env sorter cs b → IdsDistinct b.slots →
       c ∈ cs → env.desired c ≠ 0 →
       Guar c (env.desired c) (runClasses env sorter cs b).utd (runClasses env sorter cs b).slots := by
   intro cs
@@ -546,7 +546,7 @@ theorem runClasses_guar (env : Env) (sorter : Class → List Slot → List Slot)
   | nil => intro b _ _ hm; cases hm
   | cons c0 cs ih =>
     intro b hok hid hm hd
-    unfold RunOK at hok
+    unfold RunPerm at hok
     by_cases hd0 : env.desired c0 = 0
     · have hrun : runClasses env sorter (c0 :: cs) b = runClasses env sorter cs b := by
         conv => lhs; unfold runClasses
@@ -563,9 +563,9 @@ theorem runClasses_guar (env : Env) (sorter : Class → List Slot → List Slot)
       simp only [hd0, if_false] at hok
       rw [hrun]
       have hS := hok.1
-      have hidS : IdsDistinct (sorter c0 b.slots) := distinctIds_of_perm (hS.1.map _) hid
+      have hidS : IdsDistinct (sorter c0 b.slots) := distinctIds_of_perm (hS.map _) hid
       have hid1 : IdsDistinct (classIter env c0 (sorter c0 b.slots) b).slots :=
-        distinctIds_of_perm (coreRel_mnt_perm (classIter_coreRel env c0 hS.1)) hid
+        distinctIds_of_perm (coreRel_mnt_perm (classIter_coreRel env c0 hS)) hid
       rcases List.mem_cons.1 hm with rfl | hm'
       · have h0 := classIter_guar env c (sorter c b.slots) b hidS
         exact h0.transport (fun t ht => runClasses_utd_mono env sorter cs _ t ht)
